@@ -733,6 +733,12 @@ func (g *schemaGenerator) generateStructType(t *schemas.Type, scope nameScope) (
 
 	uniqueNames := make(map[string]int, len(t.Properties))
 
+	if t.AdditionalProperties != nil && t.AdditionalProperties.Not == nil {
+		// The struct gets a field of its own for the additional properties (below). A declared property
+		// that maps to the same name is suffixed like any other duplicate.
+		uniqueNames[additionalProperties] = 1
+	}
+
 	var structType codegen.StructType
 
 	for _, name := range sortedKeys(t.Properties) {
